@@ -686,10 +686,21 @@ def operator_messages(seed, n):
             continue
         ent = {'ref': 'synop:%d:%d' % (seed, i), 'hex': msg.hex(), 'src': 'operator', 'opkind': spec['opkind']}
         out.append(ent)
+        if spec['opkind'] == 'seq-ops':
+            # companions in one group: the sequence on its own, and on its own after another element - whatever
+            # a coder remembers about the sequence from one message meets it in another operator context
+            sid = [x for x in spec['raw_ids'] if x // 100000 == 3][0]
+            ent['twin'] = 'q%d:%d' % (seed, i)
+            for j, ids2 in enumerate(([sid], [spec['raw_ids'][-1], sid] if spec['raw_ids'][-1] != sid else [sid, sid])):
+                sp2 = dict(spec, raw_ids=ids2, opkind='seq-plain')
+                m2, _t2 = bufrgen.write_message(sp2)
+                if m2.find(b'BUFR', 1) < 0:
+                    out.append({'ref': 'synop:%d:%d:q%d' % (seed, i, j), 'hex': m2.hex(), 'src': 'operator',
+                                'opkind': 'seq-plain', 'twin': ent['twin']})
         # 'data twins': the SAME program with other data contents - every delayed replication factor in
         # 0..3, other arrangements of the bitmap bits, other values - so that one cached compiled template
         # is executed on different data in one history
-        if i % 2 == 0 and (spec['has_factor'] or spec['has_bitmap'] or i % 6 == 0):
+        if i % 2 == 0 and (spec['has_factor'] or spec['has_bitmap'] or i % 6 == 0) and spec['opkind'] != 'seq-ops':
             variants = [{'force_n': k} for k in range(4)] if spec['has_factor'] else [{}, {}]
             seen = set([msg])
             for j, kw in enumerate(variants):
